@@ -61,6 +61,40 @@ Definition req_holds (op : reqop) (isa_version required : ver) : bool :=
 Definition require_ok (name_matches : bool) (cond : option (reqop * ver)) (isa_version : ver) : bool :=
   name_matches && match cond with None => true | Some (op, v) => req_holds op isa_version v end.
 
+
+(* ---------- version text ---------- *)
+(* what packaging.version.parse makes of text in the subset  N(.N)*((a|b|rc)N)?  of PEP 440; None outside it *)
+Fixpoint parse_rel (s : str) (cur : option Z) (acc : list Z) : option (list Z * str) :=
+  match s with
+  | [] => match cur with Some n => Some (rev (n :: acc), []) | None => None end
+  | c :: r =>
+      if is_digit c then parse_rel r (Some (match cur with Some n => 10 * n + (c - 48) | None => c - 48 end)) acc
+      else if c =? 46 then
+        match cur, r with
+        | Some n, d :: _ => if is_digit d then parse_rel r None (n :: acc) else None
+        | _, _ => None
+        end
+      else match cur with Some n => Some (rev (n :: acc), s) | None => None end
+  end.
+
+Definition all_digits (s : str) : bool := negb (Nat.eqb (length s) 0) && forallb is_digit s.
+Definition dec_val (s : str) : Z := fold_left (fun a c => 10 * a + (c - 48)) s 0.
+
+Definition parse_pre (s : str) : option (option (prekind * Z)) :=
+  match s with
+  | [] => Some None
+  | 97 :: ds => if all_digits ds then Some (Some (PA, dec_val ds)) else None
+  | 98 :: ds => if all_digits ds then Some (Some (PB, dec_val ds)) else None
+  | 114 :: 99 :: ds => if all_digits ds then Some (Some (PRC, dec_val ds)) else None
+  | _ => None
+  end.
+
+Definition parse_version (s : str) : option ver :=
+  match parse_rel s None [] with
+  | Some (rel, rest) => match parse_pre rest with Some p => Some {| v_rel := rel; v_pre := p |} | None => None end
+  | None => None
+  end.
+
 (* ---------- the definition, as far as validation looks at it ---------- *)
 Record vvariant := {
   vv_needs_bytecode : bool; vv_has_bytecode : bool;
@@ -148,6 +182,20 @@ Definition run_validate (c : vcfg) : bool := validate c.
 Definition run_require (c : str * ver * str * option (reqop * ver)) : bool :=
   let '(isa_name, isa_version, req_name, cond) := c in require_ok (str_eqb req_name isa_name) cond isa_version.
 Definition run_gate (v : ver) : bool := gate v.
+(* the same, from the text as written in the definition / the source line (None: not a version -> rejected) *)
+Definition run_gate_text (s : str) : bool := match parse_version s with Some v => gate v | None => false end.
+Definition run_require_text (c : str * str * str * option (reqop * str)) : option bool :=
+  let '(isa_name, isa_version, req_name, cond) := c in
+  match parse_version isa_version, cond with
+  | Some iv, None => Some (require_ok (str_eqb req_name isa_name) None iv)
+  | Some iv, Some (op, rv) => match parse_version rv with
+                              | Some r => Some (require_ok (str_eqb req_name isa_name) (Some (op, r)) iv)
+                              | None => None
+                              end
+  | None, _ => None
+  end.
+Definition min_version_of_text (s : option str) : option (option ver) :=
+  match s with None => None | Some t => Some (parse_version t) end.
 Definition run_vercmp (c : ver * ver) : Z := match ver_cmp (fst c) (snd c) with Lt => -1 | Eq => 0 | Gt => 1 end.
 Definition obs_bool_eqb (a b : option bool) : bool :=
   match a, b with Some x, Some y => Bool.eqb x y | None, None => true | _, _ => false end.
